@@ -74,6 +74,9 @@ def write_if_changed(path, text):
 # ----------------------------------------------------------------------------- tables
 
 
+AUDIT = None
+
+
 def regenerate_tables():
     """Runs the translator against /repo's working tree. Returns (ok, message, tables_dict|None)."""
     os.makedirs(WORK, exist_ok=True)
@@ -94,6 +97,12 @@ def regenerate_tables():
         return False, "Untranslatable: %s" % e, None
     write_if_changed(os.path.join(COQ, "gen", "Tables.v"), text)
     write_if_changed(os.path.join(WORK, "tables.json"), json.dumps(data, indent=1, sort_keys=True))
+    # the source audit (shared state carriers) -> gen/Audit.v; kept out of the tables so that the pin comparison of the
+    # layout is not affected
+    findings = translate.audit_sources(os.path.join(REPO, "src", "tpmstream"))
+    write_if_changed(os.path.join(COQ, "gen", "Audit.v"), translate.emit_audit(findings))
+    global AUDIT
+    AUDIT = findings
     return True, "", data
 
 
